@@ -9,6 +9,9 @@ package roverif
 //   take1    GroupBy | Take(1) | MergeAll delivers the first value and completes at once
 //   regroup  the groups are consumed by hand: consumer A takes the first group, leaves after two values,
 //            consumer B takes the same group over: nothing is delivered twice, nothing is lost
+//   late     (free-running) the first group is subscribed late and from a goroutine of its own while the
+//            producer keeps emitting: the group's consumer receives the values of its key in source order,
+//            the queued ones first, each exactly once
 
 import (
 	"fmt"
@@ -23,10 +26,14 @@ func init() {
 		Weight: 1,
 		Gen: func(g *Gen) *Scn {
 			sc := &Scn{Family: "C05.groupby"}
-			sc.Sub = g.Pick("merge", "take1", "regroup")
+			sc.Sub = g.Pick("merge", "take1", "regroup", "late", "late")
 			sc.SetInt("k", g.Range(1, 3))
 			sc.Sources = []SrcSpec{{Mode: "manual", Script: genScript(g, 10, 6, "CCE-", false)}}
 			sc.SetInt("seqmode", 1)
+			if sc.Sub == "late" {
+				sc.SetInt("seqmode", 0)
+				sc.SetInt("after", g.Range(1, 4))
+			}
 			return sc
 		},
 		Run: runC05GroupBy,
@@ -54,6 +61,76 @@ func runC05GroupBy(e *Env) {
 		return true
 	}
 	switch sc.Sub {
+	case "late":
+		var first ro.Observable[int]
+		onGroup := ro.NewObserver(
+			func(g ro.Observable[int]) {
+				if first == nil {
+					first = g
+				}
+			},
+			func(err error) {},
+			func() {},
+		)
+		e.Go("subscriber", func() { groups.Subscribe(onGroup) })
+		e.Settle()
+		firstKey, pushed, producerDone, subscribed := -1, 0, false, false
+		var want []N
+		var term *Step
+		for i := range script {
+			if script[i].K != "N" {
+				term = &script[i]
+				break
+			}
+			if firstKey < 0 {
+				firstKey = key(script[i].V)
+			}
+			if key(script[i].V) == firstKey {
+				want = append(want, N{K: 'N', V: script[i].V})
+			}
+		}
+		if firstKey < 0 {
+			return
+		}
+		after := sc.Int("after", 1)
+		if after > len(want) {
+			after = len(want)
+		}
+		rec := e.NewRec("late")
+		e.Go("producer", func() {
+			for _, st := range script {
+				if st.K != "N" {
+					break
+				}
+				src.Push(st)
+				if key(st.V) == firstKey {
+					pushed++
+				}
+			}
+			producerDone = true
+		})
+		e.Go("consumer", func() {
+			e.WaitFor(func() bool { return first != nil && pushed >= after })
+			first.Subscribe(rec.Obs())
+			subscribed = true
+		})
+		e.Settle()
+		if e.K.Capped() {
+			return
+		}
+		if !producerDone || !subscribed {
+			e.Violate("C05", "arrival-blocks:GroupBy", fmt.Sprintf("GroupBy/late: producer finished=%v, late consumer's Subscribe returned=%v at quiescence", producerDone, subscribed))
+			return
+		}
+		if term != nil {
+			if !push(*term) {
+				return
+			}
+			want = append(want, N{K: term.K[0], V: term.V})
+		}
+		if got := eventsToN(rec.Events); !sameN(got, want) {
+			e.Violate("C05", "output:GroupBy:late", fmt.Sprintf("GroupBy(v%%%d): the consumer that subscribed to group %d late (after %d of its values, from its own goroutine, the producer still emitting) received [%s]; the values of that key in source order are [%s]", k, firstKey, after, traceN(got), traceN(want)))
+		}
 	case "merge", "take1":
 		o := ro.MergeAll[int]()(groups)
 		if sc.Sub == "take1" {
